@@ -1,6 +1,6 @@
 rc_target("c14_log", flavour="asan")
 rc_target("c14_bg", flavour="sched", wrap=True)
-plan("C14", [T("c14_log", 3000, 40000), T("c14_bg", 600, 8000)], min_nt=200,
+plan("C14", [T("c14_log", 6000, 60000), T("c14_bg", 3000, 25000)], min_nt=200,
      rule="log-call programs against a recording writer / memory stream",
      technique="property-based testing: generated log-call programs, line grammar + exact message oracle, level-filter model; background channel under the controlled scheduler",
      level_text="Generated search. Part A: programs of log calls, level changes and direct formatter calls; every delivered line is parsed against the "
